@@ -1,20 +1,12 @@
-(* Proofs/CodecWireDefs.v — C07: the computable GUARDS of the wire-format theorems (definitions only).
+(* Proofs/CodecWireDefs.v — C07: the computable GUARD of the wire-format theorems (definitions only).
 
-   Spec/Wire.v is the reference; the library deviates from it on the input classes below (each one
-   reproduced on /repo, see known_findings/C07.jsonl and Props/C07.v).  The positive theorems are
-   proved on the complement.
+   Spec/Wire.v is the reference.  After the codec repairs of /repo (commits 44461bb..bcb4254) the
+   library deviates from it on ONE encoding class (and one decoding class, recognised by the
+   reference itself: [STrunc], a buffer that ends inside an element of an unbounded array):
 
-     enc_dev t v : Z     0 = none; otherwise the first deviation class met while encoding v as t
-                         1 array whose element type is an n_bytes(..) INSTANCE (always DataError)
-                         2 array of bit strings given more bits than its length (not truncated)
-                         3 STRINGN with a character above U+007F (UTF-8: several bytes per character)
-                         4 DATE_AND_TIME through the uniform call T.encode(value) (TypeError)
-     dec_ty t : bool     types whose decoder follows the reference on every complete buffer:
-                         excludes STRING2 / 4-byte-character strings (count read as bytes), STRINGN
-                         (count 0 -> BufferEmptyError; UTF-8), fixed arrays of n_bytes instances,
-                         unbounded arrays of bit strings (list of lists), StructTag templates whose
-                         members are not listed by increasing offset or whose hidden hosts are not
-                         plain scalars. *)
+     enc_dev t v : Z     0 = none; 2 = while encoding v as t an array of bit strings is given more
+                         bits than its length (the library does not truncate: the Logix driver relies
+                         on passing the whole bit list of a BOOL array) *)
 From PV Require Import Base.Bytes Model.Codec Spec.Wire.
 Open Scope Z_scope.
 
@@ -33,22 +25,18 @@ Arguments first_dev2 {A B} g la lb.
 
 Fixpoint enc_dev (t : ty) (v : val) : Z :=
   match t with
-  | TDateTime => 4
-  | TStringN => match v with VStr s => if existsb (fun c => 128 <=? c) s then 3 else 0 | _ => 0 end
   | TArrFixed n e =>
-      if is_nbytes e then 1
-      else match e, v with
-           | TBits w, VList l => if (length l =? n * (8 * w))%nat then 0 else 2
-           | _, VList l => first_dev (enc_dev e) (firstn n l)
-           | _, _ => 0
-           end
+      match e, v with
+      | TBits w, VList l => if (length l =? n * (8 * w))%nat then 0 else 2
+      | _, VList l => first_dev (enc_dev e) (firstn n l)
+      | _, _ => 0
+      end
   | TArrAll e =>
-      if is_nbytes e then 1
-      else match e, v with
-           | TBits _, _ => 0
-           | _, VList l => first_dev (enc_dev e) l
-           | _, _ => 0
-           end
+      match e, v with
+      | TBits _, _ => 0
+      | _, VList l => first_dev (enc_dev e) l
+      | _, _ => 0
+      end
   | TStruct SPlain ms =>
       match v with
       | VDict d => first_dev (fun m : key * ty => match slookup d (fst m) with Some x => enc_dev (snd m) x | None => 0 end) ms
@@ -62,55 +50,5 @@ Fixpoint enc_dev (t : ty) (v : val) : Z :=
                                 else match slookup d (fst (fst m)) with Some x => enc_dev (snd m) x | None => 0 end) ms
       | _ => 0
       end
-  | _ => 0
-  end.
-
-(* scalars that decode every byte pattern of their width *)
-Definition stotal (t : ty) : bool :=
-  match t with
-  | TBool | TReal _ => true
-  | Codec.TInt _ w | TBits w => (0 <? w)%nat
-  | _ => false
-  end.
-Fixpoint offsets_increasing (pos : nat) (l : list (nat * nat)) : bool :=
-  match l with
-  | [] => true
-  | (o, w) :: r => (pos <=? o)%nat && offsets_increasing (o + w) r
-  end.
-Definition stag_ordered (ms : list ((key * nat) * ty)) (size : nat) : bool :=
-  match all_some (map (extent_of size) ms) with
-  | Some exts => offsets_increasing 0 exts
-  | None => false
-  end.
-
-Fixpoint dec_ty (t : ty) : bool :=
-  match t with
-  | TStr _ _ e => match e with Latin1 => true | _ => false end
-  | TStringN => false
-  | TArrFixed _ e => dec_ty e && negb (is_nbytes e)
-  | TArrAll e => dec_ty e && negb (is_bitstr e)
-  | TStruct _ ms => forallb (fun m : key * ty => dec_ty (snd m)) ms
-  | TStructTag ms _ priv size =>
-      forallb (fun m : (key * nat) * ty => dec_ty (snd m)) ms
-      && stag_ordered ms size
-      && forallb (fun m : (key * nat) * ty => negb (skey_in (fst (fst m)) priv) || stotal (snd m)) ms
-  | _ => true
-  end.
-
-(* the deviation class of a type excluded by [dec_ty] (for reports): first one met
-     11 STRING2 / wide fixed-width strings   12 STRINGN   13 fixed array of n_bytes
-     14 unbounded array of bit strings       15 StructTag member order / hidden host type *)
-Fixpoint dec_dev (t : ty) : Z :=
-  match t with
-  | TStr _ _ e => match e with Latin1 => 0 | _ => 11 end
-  | TStringN => 12
-  | TArrFixed _ e => if is_nbytes e then 13 else dec_dev e
-  | TArrAll e => if is_bitstr e then 14 else dec_dev e
-  | TStruct _ ms => first_dev (fun m : key * ty => dec_dev (snd m)) ms
-  | TStructTag ms _ priv size =>
-      first_nz (first_dev (fun m : (key * nat) * ty => dec_dev (snd m)) ms)
-               (if stag_ordered ms size
-                   && forallb (fun m : (key * nat) * ty => negb (skey_in (fst (fst m)) priv) || stotal (snd m)) ms
-                then 0 else 15)
   | _ => 0
   end.
